@@ -62,6 +62,10 @@ CLAIMED = {
             "Theorems C05_prompt/C05_answer_line/C05_decimal_fields hold for all proposal lines, answer lists and numbers. PARTIAL: the whole-session statement C05_conforming_statement is a Prop decided per run: 150 (2000) sessions of a real Session against the reference peer under random conforming choices (block sizes 1..256, all answer alphabets, zero-offset accepts, comments and ;PM lines, MOTD, ;FW with hashes, SID feature strings, early FQ, duplicate MIDs), judged by the peer's own checks, by the extracted Grammar validator replaying both recorded streams (payloads decoded by the independent Canon LZHUF), and by the prescribed outcome. One known finding: answer H.",
             "The reference peer is Go code in the harness (independent of package fbb, uses the library's lzhuf only to read payloads; the grammar uses Canon); the documents leave the sender's reaction to 'E' open: the peer does not send it.",
             "DESIGN.md section 6 C05"),
+    "C10": ("Coq proof of the mailbox invariants over all well-formed histories (no duplicate MIDs, outbox/sent partition, answer rule, eligibility, one-session deferral) + every observation of a real DirHandler compared with the model over random histories with restarts",
+            "Theorems C10_invariant/C10_partition/C10_answer/C10_eligible/C10_deferral/C10_inbound hold for every history of the folder-level model; the model is tied to mailbox/syncdir.go by running 400 (5000) random histories of up to 40 operations (AddOut, Prepare, restart in normal and send-only mode, GetOutbound for CMS and P2P forwarder lists, SetSent, SetDeferred, ProcessInbound, GetInboundAnswer, SetUnread, listings) on a temporary directory and comparing every observation, including the absence of private headers on returned messages and the file-name listing order.",
+            "A stored message is abstracted to MID, receiver strings, P2P-only and unread flags and a content tag (message serialisation is C09's); the file system is the operating system's (ReadDir order validated by correspondence); log.Fatalf of SetSent on a missing file is modelled as a fatal observation and exercised in a child process.",
+            "DESIGN.md section 6 C10"),
 }
 
 NOT_YET = {}
